@@ -64,6 +64,7 @@ EXPECT = {
     'PRT1': [('FixtureLint::From', 'case [[1, 2]]')],
     'TW1': [('FixtureLint::Far', 'dlon')],
     'ANG1': [('FixtureLint::Units', 'units')],
+    'ONE1': [('FixtureLint::InZone', 'dlon')],
     'CP1': [('FixtureLint::Pad', 'easting/northing')],
     'X7r': [('FixtureShared::HalfFilled', 'alpha_')],
     'K7': [('FixtureRaster::probe', 'B1 filepos column')],
@@ -150,6 +151,9 @@ def run_controls(rules):
         elif r == 'ANG1':
             from .rules import angles
             res = angles.rule_ANG1(fx, None)[0]
+        elif r == 'ONE1':
+            from .rules import lint
+            res = lint.rule_ONE1(fx, None)[0]
         elif r == 'CP1':
             from .rules import lint
             res = lint.rule_CP1(fx, None)[0]
